@@ -1,7 +1,7 @@
 (* C03 — string, run and record views agree; document and text are
    concatenations.  Statements only; proofs in proofs/ViewFacts.v. *)
 From Coq Require Import List NArith.
-From D2P Require Import Str Err Collector Iter Output Package Content ShapeFacts ViewFacts.
+From D2P Require Import Str Err Collector Iter Output Package Content ShapeFacts ViewFacts PyVal Source SourceBase SourceViews SourceIter.
 Import ListNotations.
 
 (* X_runs is get_par_strings of X_pars and X is _join_runs of X_runs, for
@@ -102,3 +102,26 @@ Theorem C03_text : forall a o r t s,
                     /\ s = join s_nn ss.
 Proof. exact text_is_join. Qed.
 Print Assumptions C03_text.
+
+(* TIE TO THE SOURCE TEXT (gen/Source.v is regenerated from /repo by tools/gen_source.py on
+   every run): depth_collector.get_par_strings, docx_output._join_runs and
+   docx_text.flatten_text AS TRANSLATED FROM THE PYTHON SOURCE (four nested loops appending into
+   the last element; "".join; iter_at_depth) equal the model's functions the theorems above are
+   about, on every 4-deep list of paragraph records / 5-deep list of run strings *)
+Theorem C03_source_get_par_strings : forall html t,
+  deep 4 t ->
+  S_get_par_strings (enc_rose (enc_par html) t) = lift_rose VStr (get_par_strings html t).
+Proof. exact src_get_par_strings. Qed.
+Print Assumptions C03_source_get_par_strings.
+
+Theorem C03_source_join_runs : forall t,
+  deep 5 t ->
+  S__join_runs (enc_rose VStr t) = lift_rose VStr (join_runs t).
+Proof. exact src_join_runs. Qed.
+Print Assumptions C03_source_join_runs.
+
+Theorem C03_source_flatten_text : forall t fuel,
+  deep 5 t -> (5 < fuel)%nat ->
+  S_flatten_text fuel (enc_rose VStr t) = lift_str (flatten_text t).
+Proof. exact src_flatten_text. Qed.
+Print Assumptions C03_source_flatten_text.
